@@ -240,8 +240,11 @@ class WCSHelper(object):
             The (x,y) pixel coordinates
 
         """
+        # quiet: with distortion terms (SIP) the iterative solver raises
+        # NoConvergence for positions far from the image, where the answer
+        # (nan or a far away pixel) just means "not on the image"
         pixel = self.wcs.all_world2pix(
-            [pos], 1, ra_dec_order=self.ra_dec_order)
+            [pos], 1, ra_dec_order=self.ra_dec_order, quiet=True)
         # wcs and python have opposite ideas of x/y
         return [pixel[0][1], pixel[0][0]]
 
